@@ -1,0 +1,70 @@
+//go:build verif
+
+// Contracts for the deductive checker in /verif (govc). Comment-only; ignored without the
+// "verif" build tag.
+//
+// Ghost state of governance: gov.acl is the stored access-control list, gov.daoowner the DAO
+// owner, gov.pval[k] the raw value of parameter k ("subspace/key") in the params store.
+// The Subspace accessors (amino + params KVStore) carry ASSUMED contracts.
+
+package keeper
+
+//@ ghost gov.acl $x/gov/types.ACL
+//@ ghost gov.daoowner Bytes
+//@ ghost gov.pval (Array Str Bytes)
+
+//@ assumed func (k Keeper) GetACL(ctx sdk.Ctx) (res types.ACL)
+//@   mode value
+//@   ensures res == gov.acl
+//@ assumed func (k Keeper) GetDAOOwner(ctx sdk.Ctx) (res sdk.Address)
+//@   mode value
+//@   ensures res == gov.daoowner
+
+// C17: VerifyACL succeeds only for the address the ACL names as owner of the parameter
+//@ func (k Keeper) VerifyACL(ctx sdk.Ctx, paramName string, owner sdk.Address) (err sdk.Error)
+//@   props C17
+//@   requires len(owner) == 20   // C03: a sender is the address of a key
+//@   ensures [owner] err == nil ==> (forall i int :: (0 <= i && i < len(gov.acl) && gov.acl[i].Key == paramName && (forall j int :: 0 <= j && j < i ==> gov.acl[j].Key != paramName)) ==> gov.acl[i].Addr == owner)
+//@   ensures [listed] err == nil ==> !(forall j int :: 0 <= j && j < len(gov.acl) ==> gov.acl[j].Key != paramName)
+//@   ensures unchanged(gov)
+//@
+// C17: a parameter changes only when the sender is its ACL owner; a rejected message changes nothing;
+// nothing but the params store is in the frame
+//@ func (k Keeper) ModifyParam(ctx sdk.Ctx, aclKey string, paramValue []byte, owner sdk.Address) (res sdk.Result)
+//@   props C17 C11
+//@   requires len(owner) == 20
+//@   modifies gov.pval, gov.acl, gov.daoowner, Hm_Str_S_types_Subspace_v, Hmp_Str   // k.spaces[name] = space rewrites the keeper's subspace map entry
+//@   ensures [rejected] res.Code != 0 ==> unchanged(gov)
+//@   ensures [authorised] res.Code == 0 ==> (forall i int :: (0 <= i && i < len(old(gov.acl)) && old(gov.acl)[i].Key == aclKey && (forall j int :: 0 <= j && j < i ==> old(gov.acl)[j].Key != aclKey)) ==> old(gov.acl)[i].Addr == owner)
+//@        && !(forall j int :: 0 <= j && j < len(old(gov.acl)) ==> old(gov.acl)[j].Key != aclKey)
+//@
+//@ func (k Keeper) HandleUpgrade(ctx sdk.Ctx, aclKey string, paramValue interface{}, owner sdk.Address) (res sdk.Result)
+//@   props C17 C11
+//@   requires len(owner) == 20
+//@   modifies gov.pval, gov.acl, gov.daoowner, Hm_Str_S_types_Subspace_v, Hmp_Str   // k.spaces[name] = space rewrites the keeper's subspace map entry
+//@   ensures [rejected] res.Code != 0 ==> unchanged(gov)
+//@   ensures [authorised] res.Code == 0 ==> (forall i int :: (0 <= i && i < len(old(gov.acl)) && old(gov.acl)[i].Key == aclKey && (forall j int :: 0 <= j && j < i ==> old(gov.acl)[j].Key != aclKey)) ==> old(gov.acl)[i].Addr == owner)
+//@        && !(forall j int :: 0 <= j && j < len(old(gov.acl)) ==> old(gov.acl)[j].Key != aclKey)
+//@
+// C17/C02: DAO funds move only on a message from the DAO owner, by exactly the stated amount, not beyond the balance
+//@ func (k Keeper) DAOTransferFrom(ctx sdk.Ctx, owner, to sdk.Address, amount sdk.Int) (res sdk.Result)
+//@   props C17 C02 C11
+//@   uses bankinv
+//@   requires len(owner) == 20 && to != modaddr("dao")
+//@   modifies acct.id, acct.next, acct.coins, acct.addr, auth.bal[modaddr("dao")], auth.has[modaddr("dao")], auth.bal[to], auth.has[to]
+//@   ensures [rejected] res.Code != 0 ==> auth.bal == old(auth.bal) && auth.supply == old(auth.supply)
+//@   ensures [owner] res.Code == 0 ==> owner == gov.daoowner
+//@   ensures [exact] res.Code == 0 ==> amt(auth.bal[modaddr("dao")], "upokt") == amt(old(auth.bal[modaddr("dao")]), "upokt") - val(amount) && amt(auth.bal[to], "upokt") == amt(old(auth.bal[to]), "upokt") + val(amount)
+//@        && amt(old(auth.bal[modaddr("dao")]), "upokt") >= val(amount) && val(amount) >= 0
+//@   ensures auth.supply == old(auth.supply) && unchanged(gov)
+//@
+//@ func (k Keeper) DAOBurn(ctx sdk.Ctx, owner sdk.Address, amount sdk.Int) (res sdk.Result)
+//@   props C17 C02 C11
+//@   uses bankinv
+//@   requires len(owner) == 20
+//@   modifies acct.id, acct.next, acct.coins, acct.addr, auth.bal[modaddr("dao")], auth.has[modaddr("dao")], auth.supply
+//@   ensures [rejected] res.Code != 0 ==> auth.bal == old(auth.bal) && auth.supply == old(auth.supply)
+//@   ensures [owner] res.Code == 0 ==> owner == gov.daoowner
+//@   ensures [exact] res.Code == 0 ==> amt(auth.bal[modaddr("dao")], "upokt") == amt(old(auth.bal[modaddr("dao")]), "upokt") - val(amount) && amt(auth.supply, "upokt") == amt(old(auth.supply), "upokt") - val(amount)
+//@        && amt(old(auth.bal[modaddr("dao")]), "upokt") >= val(amount)
+//@   ensures unchanged(gov)
